@@ -86,6 +86,17 @@ func evmWorld(w *World, t time.Time, seedByte byte) *World {
 	return w
 }
 
+// seedRng: the PRNG state for (suite, seed).  The state is derived by hashing: with `seed*gamma + c` (splitmix's own
+// increment) consecutive seeds would give the SAME stream shifted by one draw, and runs with different seeds re-synchronise.
+func seedRng(suite string, seed uint64) *Rng {
+	h := sha256.Sum256([]byte(fmt.Sprintf("canto-verif/%s/%d", suite, seed)))
+	var v uint64
+	for i := 0; i < 8; i++ {
+		v = v<<8 | uint64(h[i])
+	}
+	return &Rng{s: v}
+}
+
 // storeDigest: sha256 over (store name, key, value) of every KV store of the application, optionally skipping some.
 func (w *World) storeDigest(ctx sdk.Context, skip ...string) string {
 	names := []string{}
